@@ -14,3 +14,66 @@ package token
 //@   ensures  -1 <= result && result < len(a)
 //@   ensures  forall p int :: 0 <= p && p <= result ==> a[p] <= x
 //@   ensures  forall p int :: result < p && p < len(a) ==> a[p] > x
+
+//@ func (*File).AddLine
+//@   assumed A-int (to be verified with the position table invariant): appends to f.lines under f.mutex
+//@   ensures baseOf(f.lines) == old(baseOf(f.lines)) || fresh(f.lines)
+//@   ensures f.size == old(f.size)
+//@   assigns f.*, elems(f.lines)
+
+// ---- positions: "every reported position lies within the input" (C09) ----
+
+//@ spec func clampIdx(x int, size int) int { ite(x < 0, 0, ite(x > size, size, x)) }
+
+//@ func (*File).fixOffset
+//@   requires f.size >= 0
+//@   ensures  result == clampIdx(offset, f.size) && 0 <= result && result <= f.size
+
+//@ func toPos
+//@   requires 0 <= x && x <= 0x100000000000
+//@   ensures  result == x * 64
+
+//@ func (Pos).index
+//@   ensures result == p.offset >> 6
+
+// Pos packs (1+offset) above the 6 low bits that carry the relative position
+//@ func (*File).Pos
+//@   requires f.size >= 0 && f.size <= 0x10000000000 && 0 <= rel && rel < 64
+//@   ensures  result.file == f
+//@   ensures  result.offset == (1 + clampIdx(offset, f.size)) * 64 + rel
+
+// (P) an offset obtained from any Pos lies within the file
+//@ func (*File).Offset
+//@   requires f.size >= 0
+//@   ensures  0 <= result && result <= f.size
+//@   ensures  result == clampIdx((p.offset >> 6) - 1, f.size)
+
+// Offset(Pos(o, rel)) == clamp(o): the composition of the two postconditions
+//@ lemma Pos_Offset_inverse: forall c, rel int :: 0 <= rel && rel < 64 && 0 <= c ==> (((1 + c) * 64 + rel) >> 6) - 1 == c
+
+//@ func Lookup
+//@   assumed A-int: map lookup in the immutable keywords table (keyword tokens or IDENT)
+//@   pure
+//@   ensures result != INTERPOLATION
+
+// ---- bit packing of Pos (machine integers: arith bv) ----
+//@ func (Pos).WithRel
+//@   arith bv
+//@   requires 0 <= rel && rel <= 15
+//@   ensures  result.file == p.file && result.offset & 15 == rel && result.offset &^ 15 == p.offset &^ 15
+
+//@ func (Pos).RelPos
+//@   arith bv
+//@   ensures result == p.offset & 15
+
+//@ func (Pos).WithComma
+//@   arith bv
+//@   ensures result.file == p.file && result.offset &^ commaBit == p.offset &^ commaBit && ((result.offset & commaBit != 0) == hasComma)
+
+//@ func (Pos).HasComma
+//@   arith bv
+//@   ensures result == (p.offset & commaBit != 0)
+
+//@ func (Pos).WithScanned
+//@   arith bv
+//@   ensures result.file == p.file && result.offset &^ scannedBit == p.offset &^ scannedBit && ((result.offset & scannedBit != 0) == scanned)
